@@ -252,9 +252,6 @@ func ruleBigintCtor(c *Ctx) {
 	runGates(c, []GateSpec{{
 		ID: "NewBigInteger", Fn: [3]string{"pkg/vm/stackitem", "", "NewBigInteger"}, Target: "ok-return",
 		Guards: []Guard{{ID: "width-check", Doc: "CheckIntegerSize error panics", Alts: [][]string{{"pkg/vm/stackitem.CheckIntegerSize"}}}},
-	}, {
-		ID: "CheckIntegerSize", Fn: [3]string{"pkg/vm/stackitem", "", "CheckIntegerSize"}, Target: "ok-return", Assume: &Assume{Conds: []AssumeCond{}},
-		Guards: []Guard{{ID: "max-bits", Doc: "bit length above MaxBigIntegerSizeBits is rejected", Alts: [][]string{{"pkg/vm/stackitem.MaxBigIntegerSizeBits", "math/big.(*Int).BitLen"}}}},
 	}})
 }
 
